@@ -18,7 +18,7 @@ RULE = (
   "non-trivial = model has contacts/constraint rows or actuator activations"
 )
 ASSUMPTIONS = ["same Data layout for the compared runs, hence bitwise equality", "RK4 excluded (the statement restricts step1/step2 to Euler and implicit integrators)"]
-BUDGET = {"quick": dict(examples=320, seconds=150, workers=16), "thorough": dict(examples=8000, seconds=1500, workers=16)}
+BUDGET = {"quick": dict(examples=320, seconds=420, workers=16), "thorough": dict(examples=8000, seconds=1500, workers=16)}
 _OUT = ["qacc", "sensordata", "act_dot", "qfrc_constraint", "qfrc_passive", "qfrc_actuator", "qfrc_bias", "qacc_smooth", "xpos", "cvel", "energy", "solver_niter", "ne", "nf", "nl", "nefc"]
 
 
